@@ -302,7 +302,8 @@ fn check_probe(c: &Timing, ts: &mina::TimeScale, probe: &PTimeline, t: f32, rank
 fn configs() -> Vec<Timing> {
     let mut v = vec![];
     // (41, 47, 55, 13: cycles c for which c * (1/c) is not 1 in f32; 0.7, 7: more non-dyadics)
-    for &cycle in &[0.25f32, 1.0, 3.0, 0.3, 1.0e-3, 1.0e3, 1.0e-8, 41.0, 47.0, 55.0, 13.0, 0.7, 7.0] {
+    // 3, 7 and 11 units of the smallest subnormal: half a cycle is not representable there
+    for &cycle in &[0.25f32, 1.0, 3.0, 0.3, 1.0e-3, 1.0e3, 1.0e-8, 41.0, 47.0, 55.0, 13.0, 0.7, 7.0, f32::from_bits(3), f32::from_bits(7), f32::from_bits(11)] {
         // "any delay": negative delays (animation already under way at time 0) included
         for &delay in &[0.0f32, 0.5, 0.1, 7.0, -0.5, -0.3] {
             for rep in [Rep::None, Rep::Times(0), Rep::Times(1), Rep::Times(2), Rep::Times(7), Rep::Infinite] {
@@ -441,7 +442,7 @@ pub fn run(run: Run) -> ! {
     cov.insert("traces_validated_against_impl".into(), json!(acc.exact + acc.semi_exact + acc.windowed));
     cov.insert("evaluations".into(), json!(acc.evals + acc.probe_evals));
     cov.insert("distinct_nontrivial".into(), json!(acc.exact + acc.semi_exact + acc.windowed));
-    cov.insert("rule".into(), json!("936 timing configurations (cycle in {1/4,1,3,0.3,1e-3,1e3,1e-8,41,47,55,13,0.7,7} x delay in {0,1/2,0.1,7,-1/2,-0.3} x repeat in {None,Times 0,1,2,7,Infinite} x reverse) + 96 with very large repeat counts (cycle 1,0.9,3 x delay 0,1/2 x Times 2^24-1,2^24,2^24+1,2^25-1,2^31,2^32-385,u32::MAX-1,u32::MAX x reverse) x {every f32 within +-1024 (thorough 4096) ulp of every phase boundary delay+j*cycle/2 (first cycles), of the delay, of the reported duration and of the configured total, a 1/16 grid up to 20, 2^k(1+j/7) up to 1.5e7 (also offset by the delay), 1e6, 1e30, f32::MAX, MIN_POSITIVE, negative times}; thorough additionally sweeps EVERY finite f32 bit pattern (both signs) for 64 configurations. Oracle RefTimeScale: position in [0,1]; NotStarted iff t<delay (exact); when the arithmetic is exact (power-of-two cycle, exact t-delay) the phase, position and loop flags must equal the reference bit for bit; when only t-delay is exact the phase and flags must be equal and the position within 3 ulp(1) (the remainder is exact, only the division rounds); otherwise agreement with the reference at some t' within +-3 ulp(t) (position tolerance stated per case); when 3 ulp(t) >= cycle/4 only boundedness and far-from-end terminal consistency are asserted (counted as bounded_only). Every evaluation of a finite configuration is also checked against the REPORTED duration: terminal strictly before get_duration() or not terminal strictly after it is a violation (no slack when delay = 0, 2 ulp otherwise). Metadata: delay/cycle/repeat exact, duration within 1.5 ulp (2.5 when repeats+1 needs more than 24 bits) of delay+cycle*(repeats+1), infinite iff Infinite; a timeline without keyframes, and the timeline wrapped in MergedTimeline::from, report the same metadata, while a MergedTimeline of the timeline and a twin whose cycle is the neighbouring f32 (either side, either order) reports no cycle duration; a linear 0->1 probe through Timeline::update must show exactly the position (the probe's duration/delay/repeat/reverse setters are called in one of four orders). non-trivial = evaluations compared with the reference (exact + windowed)"));
+    cov.insert("rule".into(), json!("1152 timing configurations (cycle in {1/4,1,3,0.3,1e-3,1e3,1e-8,41,47,55,13,0.7,7, and 3, 7, 11 units of the smallest subnormal (half a cycle is not an f32 there)} x delay in {0,1/2,0.1,7,-1/2,-0.3} x repeat in {None,Times 0,1,2,7,Infinite} x reverse) + 96 with very large repeat counts (cycle 1,0.9,3 x delay 0,1/2 x Times 2^24-1,2^24,2^24+1,2^25-1,2^31,2^32-385,u32::MAX-1,u32::MAX x reverse) x {every f32 within +-1024 (thorough 4096) ulp of every phase boundary delay+j*cycle/2 (first cycles), of the delay, of the reported duration and of the configured total, a 1/16 grid up to 20, 2^k(1+j/7) up to 1.5e7 (also offset by the delay), 1e6, 1e30, f32::MAX, MIN_POSITIVE, negative times}; thorough additionally sweeps EVERY finite f32 bit pattern (both signs) for 64 configurations. Oracle RefTimeScale: position in [0,1]; NotStarted iff t<delay (exact); when the arithmetic is exact (power-of-two cycle, exact t-delay) the phase, position and loop flags must equal the reference bit for bit; when only t-delay is exact the phase and flags must be equal and the position within 3 ulp(1) (the remainder is exact, only the division rounds); otherwise agreement with the reference at some t' within +-3 ulp(t) (position tolerance stated per case); when 3 ulp(t) >= cycle/4 only boundedness and far-from-end terminal consistency are asserted (counted as bounded_only). Every evaluation of a finite configuration is also checked against the REPORTED duration: terminal strictly before get_duration() or not terminal strictly after it is a violation (no slack when delay = 0, 2 ulp otherwise). Metadata: delay/cycle/repeat exact, duration within 1.5 ulp (2.5 when repeats+1 needs more than 24 bits) of delay+cycle*(repeats+1), infinite iff Infinite; a timeline without keyframes, and the timeline wrapped in MergedTimeline::from, report the same metadata, while a MergedTimeline of the timeline and a twin whose cycle is the neighbouring f32 (either side, either order) reports no cycle duration; a linear 0->1 probe through Timeline::update must show exactly the position (the probe's duration/delay/repeat/reverse setters are called in one of four orders). non-trivial = evaluations compared with the reference (exact + windowed)"));
     cov.insert("exhaustive".into(), json!(true));
     cov.insert("compared_exact".into(), json!(acc.exact));
     cov.insert("compared_exact_phase_position_within_3ulp".into(), json!(acc.semi_exact));
